@@ -198,19 +198,18 @@ def run_property(pid, tier="quick", seed=0, only=None, jobs=None, no_replay=Fals
             "seed": seed}
     if tier == "thorough":
         os.environ["PYVC_VC_MS"] = os.environ.get("PYVC_VC_MS", "60000")
-    jobs = jobs or min(16, max(1, len(keys)))
+    tasks = []
+    for k in keys:
+        fc_ = sets[k[0]].fns.get(k[1]) if isinstance(k, tuple) else None
+        n_sh = getattr(fc_, "shards", None) or 1
+        if n_sh > 1:
+            # the paths of one heavy function are proved by several workers (every worker explores all paths, each
+            # proves the obligations of its share)
+            tasks.extend((pid, k, dict(opts, shard=(i_, n_sh))) for i_ in range(n_sh))
+        else:
+            tasks.append((pid, k, opts))
+    jobs = jobs or min(16, max(1, len(tasks)))
     with mp.Pool(jobs, maxtasksperchild=4) as pool:
-        tasks = []
-        for k in keys:
-            fc_ = sets[k[0]].fns.get(k[1]) if isinstance(k, tuple) else None
-            n_sh = getattr(fc_, "shards", None) or 1
-            if n_sh > 1:
-                # the paths of one heavy function are proved by several workers (every worker explores all paths, each
-                # proves the obligations of its share)
-                tasks.extend((pid, k, dict(opts, shard=(i_, n_sh))) for i_ in range(n_sh))
-            else:
-                tasks.append((pid, k, opts))
-        jobs = min(16, max(jobs, len(tasks))) if jobs else jobs
         results = pool.map(_worker, tasks, chunksize=1)
     # ---------------- aggregate
     byname = {}
